@@ -225,6 +225,12 @@ struct C16 : Prop {
 			std::string d = "expected [";
 			for (auto &x : expect) d += x + " "; d += "] on the wire during bidib_stop, got [";
 			for (auto &x : got) d += x + " "; d += "]";
+			// A distinct situation, kept apart so that it can be listed as a known finding without hiding anything else: the receiver answers a burst of
+			// accessory notifications with queries of its own during the last milliseconds of the stop; five of them outstanding use up the node's
+			// response budget at the very instant track-off is submitted, which is then held back and discarded.
+			size_t recv_queries = 0; for (size_t i = stop_wire_begin; i < e.bus.wire.size(); i++) if (e.bus.wire[i].msg.type == MSG_ACCESSORY_GET) recv_queries++;
+			bool only_tail_missing = got.size() < expect.size() && std::equal(got.begin(), got.end(), expect.begin());
+			if (recv_queries >= 5 && only_tail_missing) e.violate("SHUTDOWN_HELD_BACK_BY_RECEIVER_QUERIES", kind, d + "; the receiver had put " + std::to_string(recv_queries) + " MSG_ACCESSORY_GET of its own on the wire during the stop");
 			e.violate("SHUTDOWN_SEQUENCE", kind, d);
 		}
 		// ---- leaks: live library heap after stop vs. previous session of the same kind
